@@ -29,6 +29,13 @@ def key64 : Dec Bytes := takeN 2048
 /-- `RangeSig { asig: BoroSig { s0: Key64, s1: Key64, ee: Key }, Ci: Key64 }` -/
 def rangeSig : Dec Bytes := takeN 6176
 
+/-- `String::consensus_decode`: a `Vec<u8>` (length-prefixed, capped) that must be valid UTF-8; `valid` is
+`String::from_utf8(..).is_ok()` (a parameter of the model; the driver uses Lean's own UTF-8 validator) -/
+def stringDec (valid : Bytes → Bool) : Dec Bytes :=
+  bind (vec sizes.u8 u8) fun bs => if valid bs then pure' bs else fail
+/-- `String::consensus_encode`: varint of the byte length, then the bytes -/
+def encString (s : Bytes) : Bytes := encVarint s.length ++ s
+
 /-- strict decoding (`deserialize`): everything must be consumed -/
 def strict {α} (d : Dec α) (b : Bytes) : Option α := match d b with | some (x, []) => some x | _ => none
 end Monero
